@@ -157,6 +157,11 @@ pub enum Motif {
         diag_n: u8,
         diag_queen_far: bool,
     },
+    /// All thirty-two men (minus `drop`), four per rank on alternating files: the placement text
+    /// is as long as it can be (71 characters when nothing is dropped or removed).
+    /// `rich`: additionally all four castling rights (king on c, rooks on a and e) and an
+    /// en-passant file, so that with clocks at 100 / >= 10000 the record has its maximal length.
+    Dense { phases: u8, kinds: [u8; 32], drop: u8, rich: bool },
     /// King near an edge with a few enemy pieces close by: mates and stalemates.
     Net {
         black: bool,
@@ -264,6 +269,8 @@ struct Hints {
     rights: Vec<(Side, usize, u8)>,
     /// do not auto-pick further rights for this side
     rights_fixed: [bool; 2],
+    /// the motif's layout is the whole placement: ignore the extras
+    no_extras: bool,
 }
 
 fn apply_motif(b: &mut Builder, m: &Motif, h: &mut Hints) {
@@ -732,6 +739,67 @@ fn apply_motif(b: &mut Builder, m: &Motif, h: &mut Hints) {
                 b.put(file, far + 3 * down, Kind::N, them);
             }
         }
+        Motif::Dense { phases, kinds, drop, rich } => {
+            h.no_extras = true;
+            let mut slot = 0usize;
+            let mut pawns = [0u8; 2];
+            let mut phases = *phases;
+            let mut king_slot = [kinds[0] as usize % 4, 28 + kinds[1] as usize % 4];
+            let mut dropped = [(*drop as usize % 3 > 0).then_some(4 + kinds[2] as usize % 12), (*drop as usize % 3 > 1).then_some(16 + kinds[3] as usize % 12)];
+            let mut forced: Vec<(i32, i32, Kind, Side)> = Vec::new();
+            if *rich {
+                let f = kinds[4] as i32 % 8;
+                let q = (f % 2) as u8;
+                // ranks 1 and 8 on files a, c, e, g; the en-passant file occupied on the fourth
+                // rank and empty on the second and third
+                phases &= !0b1000_1111;
+                phases |= q << 3 | (1 - q) << 2 | (1 - q) << 1;
+                king_slot = [1, 29];
+                dropped = [None, None];
+                for (side, r) in [(Side::W, 0), (Side::B, 7)] {
+                    forced.push((0, r, Kind::R, side));
+                    forced.push((4, r, Kind::R, side));
+                    h.rights.push((side, 1, 0));
+                    h.rights.push((side, 0, 4));
+                    h.rights_fixed[side.idx()] = true;
+                }
+                forced.push((f, 3, Kind::P, Side::W));
+                h.stm = Some(Side::B);
+                h.ep_file = Some(f as u8);
+            }
+            for r in 0..8i32 {
+                let side = if r < 4 { Side::W } else { Side::B };
+                for f in 0..8i32 {
+                    if (f + ((phases >> r) & 1) as i32) % 2 != 0 {
+                        continue;
+                    }
+                    let i = slot;
+                    slot += 1;
+                    if i == king_slot[side.idx()] {
+                        b.put(f, r, Kind::K, side);
+                        continue;
+                    }
+                    if dropped.contains(&Some(i)) {
+                        continue;
+                    }
+                    if let Some(&(_, _, k, s)) = forced.iter().find(|x| x.0 == f && x.1 == r) {
+                        b.put(f, r, k, s);
+                        if k == Kind::P {
+                            pawns[s.idx()] += 1;
+                        }
+                        continue;
+                    }
+                    let mut kind = [Kind::P, Kind::P, Kind::N, Kind::B, Kind::R, Kind::Q][kinds[i] as usize % 6];
+                    if kind == Kind::P && (r == 0 || r == 7 || pawns[side.idx()] >= 7) {
+                        kind = Kind::N;
+                    }
+                    if kind == Kind::P {
+                        pawns[side.idx()] += 1;
+                    }
+                    b.put(f, r, kind, side);
+                }
+            }
+        }
         Motif::SliderSwarm { black, corner, file_n, rank_n, diag_n, diag_queen_far } => {
             let us = side_of(*black);
             let them = us.other();
@@ -797,7 +865,7 @@ pub fn assemble(ing: &Ingredients) -> RawState {
     apply_motif(&mut b, &ing.motif, &mut h);
     b.put_king(ing.wk % 64, Side::W);
     b.put_king(ing.bk % 64, Side::B);
-    for &(ksel, black, s) in &ing.extras {
+    for &(ksel, black, s) in ing.extras.iter().filter(|_| !h.no_extras) {
         let kind = EXTRA_KINDS[ksel as usize % 16];
         let s = s % 64;
         b.put(file_of(s), rank_of(s), kind, side_of(black));
@@ -911,6 +979,8 @@ fn arb_motif() -> impl Strategy<Value = Motif> {
             .prop_map(|(black, long, cover_queen, cover_dist, drop)| Motif::CastleOnly { black, long, cover_queen, cover_dist, drop }),
         1 => (any::<bool>(), any::<bool>(), prop_oneof![2 => Just(0u8), 1 => 1u8..4])
             .prop_map(|(black, long, variant)| Motif::CastleMate { black, long, variant }),
+        1 => (any::<u8>(), any::<[u8; 32]>(), prop_oneof![3 => Just(0u8), 1 => 1u8..3], any::<bool>())
+            .prop_map(|(phases, kinds, drop, rich)| Motif::Dense { phases, kinds, drop, rich }),
         1 => (any::<bool>(), 0u8..4, 0u8..5, 0u8..5, 0u8..3, any::<bool>())
             .prop_map(|(black, corner, file_n, rank_n, diag_n, diag_queen_far)| Motif::SliderSwarm { black, corner, file_n, rank_n, diag_n, diag_queen_far }),
         1 => (any::<bool>(), any::<bool>(), 0u8..5, 0u8..2, any::<bool>(), 0u8..4)
